@@ -715,3 +715,22 @@ Proof.
   split; [split; [repeat constructor; vm_compute; discriminate|vm_compute; discriminate]|].
   vm_compute. repeat split; reflexivity.
 Qed.
+
+(* ======================= extension: the chunked comparison kernel of the release-mode sort ======================= *)
+From ZV.C20 Require Import ModelCmp ProofsCmp.
+Open Scope N_scope.
+
+(* SortableStrVec::fast_lexicographic_cmp (8-byte chunks of the common length compared as byte arrays, the remaining bytes one by
+   one, then the lengths) is the byte-wise lexicographic order by unsigned byte, for all lengths *)
+Theorem fast_lex_cmp_is_lex :
+  forall a b, fast_lex_cmp a b = lex a b.
+Proof. exact fast_lex_cmp_is_lex_proof. Qed.
+Check fast_lex_cmp_is_lex :
+  forall a b, fast_lex_cmp a b = lex a b.
+Print Assumptions fast_lex_cmp_is_lex.
+
+Example cmp_kernel_nontrivial :
+  fast_lex_cmp [1; 2; 3; 4; 5; 6; 7; 8; 9; 200] [1; 2; 3; 4; 5; 6; 7; 8; 9; 100; 0] = Gt /\
+  fast_lex_cmp [1; 2; 3; 4; 5; 6; 7; 200; 0] [1; 2; 3; 4; 5; 6; 7; 8; 255] = Gt /\
+  fast_lex_cmp [1; 2; 3; 4; 5; 6; 7; 8] [1; 2; 3; 4; 5; 6; 7; 8; 0] = Lt /\ fast_lex_cmp [] [] = Eq.
+Proof. vm_compute. repeat split; reflexivity. Qed.
